@@ -139,6 +139,12 @@ func (rfp MaskedTransformProtocol) AggregateShares(share1, share2 multiparty.Ref
 		return fmt.Errorf("cannot AggregateShares: all s2e shares must be at the same level")
 	}
 
+	if !share1.MetaData.Equal(&share2.MetaData) {
+		return fmt.Errorf("cannot AggregateShares: shares MetaData do not match")
+	}
+
+	shareOut.MetaData = share1.MetaData
+
 	rfp.e2s.params.RingQ().AtLevel(share1.EncToShareShare.Value.Level()).Add(share1.EncToShareShare.Value, share2.EncToShareShare.Value, shareOut.EncToShareShare.Value)
 	rfp.s2e.params.RingQ().AtLevel(share1.ShareToEncShare.Value.Level()).Add(share1.ShareToEncShare.Value, share2.ShareToEncShare.Value, shareOut.ShareToEncShare.Value)
 
